@@ -8,7 +8,7 @@ an operation that reports success has taken effect.
 Quantifier: all compound shards, all sequences of set/unset operations on their repositories, all queries, and failures
 of the sidecar rename.
 -/
-import ZoektModel.C17.Spec
+import ZoektModel.C17.Lemmas
 namespace ZoektModel.C17
 
 /-! ## the set/unset state machine on the sidecar -/
@@ -223,6 +223,97 @@ theorem search_restored (s : Shard) (id : Nat) (h : ∀ r ∈ s.load, r.id = id 
   have h1 : s'.load = s.load := unset_restores s id h
   have h2 : s'.docs = s.docs := by simp [s', setTombstone]
   rw [h1, h2]; exact ⟨rfl, rfl⟩
+
+set_option linter.unusedSimpArgs false in
+/-- **`List` with a repository predicate returns exactly the alive repositories that satisfy it** — on each of the three
+    paths of `simplifyMultiRepo` (all alive repositories match → `Const true` shortcut; some match → `List` through `Search`,
+    repositories found by name; none matches → `Const false`), for shards in which names are unique and every alive
+    repository has a live document (`ListWF`; `index.Merge` drops empty repositories). -/
+theorem list_repoPred_exact (repos : List Repo) (docs : List Doc) (hwf : ListWF repos docs) (p : Repo → Bool) :
+    list repos docs (.repoPred p) = listSpec repos p := by
+  by_cases h1 : ((repos.filter fun r => !r.tomb).filter p).length = (repos.filter fun r => !r.tomb).length
+  · -- all alive repositories match: `Const true`
+    simp only [list, simplify, h1, if_true, listSpec]
+    have hall := (filter_length_eq_iff p _).mp h1
+    apply List.filter_congr
+    intro i _
+    cases hr : repos[i]? with
+    | none => simp
+    | some r =>
+      simp only [Option.any_some]
+      cases ht : r.tomb
+      · have := hall r (by simp only [List.mem_filter]; exact ⟨List.mem_of_getElem? hr, by simp [ht]⟩)
+        simp [this]
+      · simp
+  · by_cases h2 : ((repos.filter fun r => !r.tomb).filter p).length > 0
+    · -- some match: through Search, found by name
+      simp only [list, simplify, h1, h2, if_true, if_false, listSpec]
+      apply List.filter_congr
+      intro i _
+      cases hr : repos[i]? with
+      | none => simp
+      | some r =>
+        simp only [Option.any_some]
+        cases ht : r.tomb
+        · simp only [Bool.not_false, Bool.true_and]
+          cases hp : p r
+          · -- not matching: its name is not found
+            rw [Bool.eq_false_iff]
+            intro hfound
+            simp only [List.contains_eq_mem, List.mem_filterMap, decide_eq_true_eq] at hfound
+            obtain ⟨d, hd, hname⟩ := hfound
+            simp only [search, List.mem_filter, Bool.and_eq_true, matchesQ] at hd
+            simp only [repoNameOf] at hname
+            cases hrd : repos[d.repo]? with
+            | none => simp [hrd] at hname
+            | some r' =>
+              simp [hrd] at hname hd
+              have := hwf.names d.repo i r' r hrd hr hname
+              subst this
+              rw [hr] at hrd; injection hrd with hrd; subst hrd
+              rw [hp] at hd; exact absurd hd.2.2 (by simp)
+          · obtain ⟨d, hd, hdi, hlive⟩ := hwf.hasDoc i r hr ht
+            simp only [List.contains_eq_mem, List.mem_filterMap, decide_eq_true_eq]
+            refine ⟨d, ?_, by simp [repoNameOf, hdi, hr]⟩
+            simp [search, List.mem_filter, hd, hlive, matchesQ, hdi, hr, hp]
+        · simp
+    · -- none matches: `Const false`
+      simp only [list, simplify, h1, h2, if_false, listSpec]
+      have h0 : ((repos.filter fun r => !r.tomb).filter p) = [] := by
+        rw [← List.length_eq_zero_iff]; omega
+      symm
+      rw [List.filter_eq_nil_iff]
+      intro i _
+      cases hr : repos[i]? with
+      | none => simp
+      | some r =>
+        simp only [Option.any_some, Bool.and_eq_true, Bool.not_eq_true', not_and]
+        intro ht hp
+        have : r ∈ (repos.filter fun r => !r.tomb).filter p := by
+          simp only [List.mem_filter]
+          exact ⟨⟨List.mem_of_getElem? hr, by simp [ht]⟩, hp⟩
+        rw [h0] at this; simp at this
+
+
+
+/-- **a tombstone on one repository changes `List` for that repository only**: for a repository predicate the listing after `SetTombstone(id)` is the listing before without the repositories
+    with that ID -/
+theorem list_after_set (repos : List Repo) (docs : List Doc) (hwf : ListWF repos docs) (p : Repo → Bool)
+    (id : Nat) :
+    list (flip repos id true) docs (.repoPred p) =
+      (list repos docs (.repoPred p)).filter fun i => (repos[i]?).all fun r => r.id != id := by
+  rw [list_repoPred_exact _ _ (listWF_flip repos docs hwf id), list_repoPred_exact _ _ hwf]
+  simp only [listSpec, List.filter_filter, flip, List.length_map]
+  apply List.filter_congr
+  intro i _
+  simp only [List.getElem?_map]
+  cases hr : repos[i]? with
+  | none => simp
+  | some r =>
+    by_cases h1 : r.id = id
+    · simp [h1]
+    · simp [h1]
+
 
 /-! ## non-vacuity -/
 
